@@ -479,3 +479,54 @@ Example ex_ctx_window_locked_helper :
   | None => False
   end.
 Proof. vm_compute. repeat split; reflexivity. Qed.
+
+(* ================================================================== the exit broadcast is part of the cascade,
+   whatever the waiter's context (seeded change C07-ind2-3: "no watcher goroutine for contexts that can never end").
+
+   In the model every waiter that has been through the wait loop releases its helper when it leaves
+   (Monitor.v: exit_pending) - independently of `ended` and of whether its context can end at all: the code always
+   derives a cancellable context and runs `defer cancel()`.  (a) The cascade theorem therefore covers consumers
+   whose context NEVER ends: it holds for all runs without any LCtxEnd step, for either helper shape.  (b) The
+   variant in which the released helpers never broadcast (= waiters without a watcher: runs without LHelper steps)
+   loses a consumer: two consumers with contexts that never end, a burst of two Adds. *)
+Definition never_ctx_end (s : state qdata) (l : label) : Prop :=
+  match l with LCtxEnd _ => False | _ => True end.
+
+Theorem queue_consumers_noncancellable hl : queue_consumers_stmt true hl never_ctx_end.
+Proof.
+  apply queue_consumers. right. intros s l H. destruct l; simpl in *; auto; contradiction.
+Qed.
+
+Definition no_watcher (s : state qdata) (l : label) : Prop :=
+  match l with LCtxEnd _ | LHelper _ => False | _ => True end.
+Definition no_watcherb (s : state qdata) (l : elabel) : bool :=
+  match l with ECtxEnd _ | EHelper _ => false | _ => true end.
+
+(* nothing can run any more, although the exit broadcasts the variant does not have are still "pending" *)
+Definition stalled (s : state qdata) : Prop := lock s = None /\ forall t, runnable (thr s t) = false.
+
+Definition lost_consumer_without_exit_broadcast : Prop :=
+  exists prog d0 s t, queue_prog true prog /\ reach qdata prog d0 true no_watcher s /\ stalled s /\
+    is_wait true prog t /\ thr s t = Parked /\ t_len (q_trk (dat s)) <> 0%Z.
+
+Definition nowatch_sched : list elabel :=
+  run_to_park 0 ++ run_to_park 1 ++ run_effect 2 [Some 0] ++ run_effect 3 [] ++ run_recheck 0 [].
+
+Lemma no_watcherb_ok : forall s l, no_watcherb s l = true -> no_watcher s (erase l).
+Proof. intros s l H. destruct l; simpl in *; auto; discriminate. Qed.
+
+Theorem cascade_needs_exit_broadcast : lost_consumer_without_exit_broadcast.
+Proof.
+  pose (p := qprog true race_ops). pose (i0 := qinit (TNoLimit 0%Z)).
+  destruct (opt_witness (exec_run_g qdata p true 4 no_watcherb (init qdata i0) nowatch_sched)
+              (fun s => is_none (lock s) = true /\ forallb (fun t => negb (runnable (thr s t))) (seq 0 4) = true /\
+                        thr s 1 = Parked /\ (t_len (q_trk (dat s)) =? 0)%Z = false))
+    as (s & E & L & Rn & Hs & Hl).
+  { vm_compute; repeat split; reflexivity. }
+  destruct (exec_g_from_init qdata p i0 true 4 no_watcherb no_watcher no_watcherb_ok nowatch_sched s E) as [R B].
+  exists p, i0, s, 1. split; [apply qprog_is_queue_prog|]. split; [exact R|]. split.
+  - split; [apply is_none_true; exact L|]. intros t. destruct (le_lt_dec 4 t) as [G|G].
+    + rewrite (B t G). reflexivity.
+    + rewrite forallb_forall in Rn. apply negb_true_iff. apply Rn. apply in_seq. lia.
+  - split; [reflexivity|]. split; [exact Hs|]. apply Z.eqb_neq. exact Hl.
+Qed.
